@@ -18,7 +18,8 @@ ASSUMPTIONS = ["MTRL/SHPK layouts as in Lumina/Penumbra",
 def plan(tier):
     if tier == "quick":
         return [("debug", 16, dict(n=60)), ("release", 4, dict(n=40)), ("asan", 2, dict(n=15))]
-    return [("debug", 16, dict(n=2000)), ("release", 8, dict(n=1000)), ("asan", 4, dict(n=200)), ("memcheck", 2, dict(n=12))]
+    return [("debug", 16, dict(n=2000)), ("release", 8, dict(n=1000)), ("asan", 4, dict(n=200)), ("memcheck", 2, dict(n=12)),
+            ("miri", 2, dict(n=1))]       # incl. the shared-object lookups under Miri's data-race detector
 
 
 NAME = b"abcdefghijklmnopqrstuvwxyzABCDEFGHIJKLMNOPQRSTUVWXYZ0123456789_/."
@@ -352,6 +353,9 @@ def shpk_case(ctx, rng):
                 ctx.violation("decode", dict(sub="find_node_unknown_selector"), dict(selector=sel, got=r.value), files=[f])
         elif r.outcome == "none" or (r.ok and r.value["pos"] != exp):
             ctx.violation("decode", dict(sub="find_node"), dict(selector=sel, got=r.value, expected_pos=exp), files=[f])
+    # the same lookups from several threads that share the one package object
+    if rng.random() < 0.3 or ctx.variant == "miri":
+        ctx.shared_between_threads(["shpk.find_node %d %d" % (h, sel) for sel in probes[:40]], "shpk-find-node", reps=20, files=[f])
     ctx.call("drop", h)
 
 
